@@ -302,6 +302,15 @@ def gen_cells_def(draw, G, space, name, feat, params=None):
 # ----------------------------------------------------------------------------
 # models as build operations
 
+def mro_ok(G):
+    try:
+        for s in G.all_spaces():
+            G.mro(s)
+        return True
+    except (TypeError, ValueError):
+        return False
+
+
 def fresh_model():
     return R.RModel()
 
@@ -364,7 +373,13 @@ def gen_model_ops(draw, feat, G=None):
             if cands and draw(st.integers(0, 1)) == 0:
                 k = draw(st.integers(1, min(2, len(cands))))
                 bs = draw(st.permutations(cands))[:k]
-                emit(["add_bases", p, [list(b) for b in bs]])
+                sp = G.space(tuple(p))
+                saved = list(sp.bases)
+                sp.bases = saved + [tuple(b) for b in bs]
+                ok = mro_ok(G)
+                sp.bases = saved
+                if ok:
+                    emit(["add_bases", p, [list(b) for b in bs]])
     # cells, in rank order so that callees exist
     allnames = ["c%d" % r for r in range(feat.max_rank + 1)]
     plan = []
